@@ -657,6 +657,9 @@ class Service(object):
                 rec.recording_params(RecordingParameters(**(spec.op.params or {})))(base)
             cls = type(spec.op.name, (base,), {})
             D.register(spec.op.name, cls)
+            # another service class inheriting the same decorated operation
+            self.SiblingOp = type('Sibling' + spec.op.name, (base,), {})
+            D.register('Sibling' + spec.op.name, self.SiblingOp)
             return cls
         cls = type(spec.op.name, (object,), ns)
         D.register(spec.op.name, cls)
@@ -669,9 +672,12 @@ class Service(object):
 
     def invoke(self):
         """Run the operation once, like a caller of the service would."""
+        cls = self.Op
+        if getattr(self.spec.op, 'run_on_sibling', False) and getattr(self, 'SiblingOp', None) is not None:
+            cls = self.SiblingOp
         if self.spec.op.kind == 'class':
-            return self.Op.execute()
-        return self.Op().execute()
+            return cls.execute()
+        return cls().execute()
 
 
 CallCheck = namedtuple('CallCheck', 'kind alias thread bodies identical_return identical_raise args_identical note')
